@@ -64,7 +64,8 @@ mut('C18', 'noise-cov-dropped', S, "            epsilon = epsilon @ noise_chol_c
 mut('C18', 'noise-trial-cov-on-channels', S, "            epsilon = noise_chol_trial @ epsilon", "            epsilon = epsilon @ noise_chol_trial")
 # ---- C19
 mut('C19', 'radius-le', SL, "    return tuple(data[distance < radius].T.tolist())", "    return tuple(data[distance <= radius].T.tolist())")
-mut('C19', 'threshold-gt', SL, "        if mask[neighbors].mean() >= threshold:", "        if mask[neighbors].mean() > threshold:")
+mut('C19', 'threshold-gt', SL, "        if (mask[neighbors] != 0).mean() >= threshold:", "        if (mask[neighbors] != 0).mean() > threshold:")
+mut('C19', 'coverage-by-mask-values', SL, "        if (mask[neighbors] != 0).mean() >= threshold:", "        if mask[neighbors].mean() >= threshold:")
 mut('C19', 'chunk-shifted', SL, "            RDM[chunks, :] = RDM_corr.dissimilarities", "            RDM[chunks[::-1], :] = RDM_corr.dissimilarities")
 mut('C19', 'chunk-limit-descriptor', SL, "    SL_rdms = RDMs(RDM,\n                   rdm_descriptors={'voxel_index': centers},", "    SL_rdms = RDMs(RDM,\n                   rdm_descriptors={'voxel_index': np.sort(centers)},")
 mut('C19', 'unordered', SL, "    results = Parallel(n_jobs=n_jobs)(", "    results = Parallel(n_jobs=n_jobs, return_as='generator_unordered')(")
@@ -80,7 +81,7 @@ mut('C11', 'sort-measurements-only', D, "        order = np.argsort(desc, kind='
 mut('C11', 'subset-descriptor-off-by-one', 'rsatoolbox/util/descriptor_utils.py', "            extracted_descriptor[k] = [v[index] for index in indices]", "            extracted_descriptor[k] = [v[index - 1] for index in indices]")
 mut('C11', 'subset_time-open-interval', D, "        sel_time = [t for t in time if t_from <= t <= t_to]", "        sel_time = [t for t in time if t_from <= t < t_to]")
 mut('C11', 'merge-set-order', 'rsatoolbox/data/ops.py', "    meas = concatenate([ds.measurements for ds in sets], axis=0)", "    meas = concatenate([ds.measurements for ds in sets[::-1]], axis=0)")
-mut('C11', 'time_as_channels-order', D, "        chn_des = {k: np.repeat(v, n_tps) for (k, v) in old_chn_des.items()}", "        chn_des = {k: np.tile(v, n_tps) for (k, v) in old_chn_des.items()}")
+mut('C11', 'time_as_channels-order', D, "        chn_des = {k: np.repeat(v, n_tps, axis=0)\n                   for (k, v) in old_chn_des.items()}", "        chn_des = {k: np.concatenate([v] * n_tps, axis=0)\n                   for (k, v) in old_chn_des.items()}")
 mut('C11', 'sort-unstable', D, "        desc = self.obs_descriptors[by]\n        order = np.argsort(desc, kind='stable')\n        self.measurements = self.measurements[order]\n        self.obs_descriptors = subset_descriptor(self.obs_descriptors, order)\n\n    def get_measurements(self):",
     "        desc = self.obs_descriptors[by]\n        order = np.argsort(desc, kind='quicksort')\n        self.measurements = self.measurements[order]\n        self.obs_descriptors = subset_descriptor(self.obs_descriptors, order)\n\n    def get_measurements(self):")
 # ---- C12
